@@ -9,6 +9,11 @@ git diff -- . ':!seed_demo*' > $(dirname $WT)/$P.patch
 /verif/tools/confirm_seed.sh "$WT" "$WT/seed_demo.sh" 2>&1 | tail -15
 cd /verif
 git -C /repo apply $(dirname $WT)/$P.patch || { echo APPLY-FAILED; exit 2; }
+# evidence/ and evidence/replay/ must describe runs on /repo itself: keep them out of this trial
+EVBAK=$(mktemp -d)
+cp -a evidence/. $EVBAK/
 for c in $CHECKS; do ./check $c quick 2>&1 | tail -6; done
 git -C /repo checkout -- .
+mkdir -p $(dirname $WT)/replays-$P && cp evidence/replay/$P-* $(dirname $WT)/replays-$P/ 2>/dev/null
+rm -rf evidence && mkdir evidence && cp -a $EVBAK/. evidence/ && rm -rf $EVBAK
 git -C /repo status --short | head
